@@ -8,6 +8,17 @@ R-LOCK       every public method holds a guard (lock_guard/unique_lock/scoped_lo
              helper that needs the lock; helpers that touch guarded members without locking are
              private and every call site holds the guard; no re-lock of the non-recursive mutex;
              guarded members are private and the class has no friends.
+             Protected aliases: a local pointer / reference / iterator / view whose value derives, by data flow, from a
+             guarded member (`&it->second`, `lookup.find(k)`, `*ordered.begin()`, `elem.get()`, a reference bound to an
+             element, a structured binding of an insert result, a range-for variable, the raw pointer an element
+             accessor returns, the result of a private helper that runs under the caller's lock) is itself guarded: it
+             may be dereferenced, called through, advanced or passed on only inside the lock region in which it was
+             obtained (guard still in scope, no unlock() since; re-locking does not revive it).  Comparing it, testing
+             it for null, overwriting it and copying it into another local (which then carries the obligation) do not
+             touch the storage.  Values copied out under the lock into types that cannot hold a handle (size_t,
+             std::string, std::shared_ptr<T> payload copies, bool) are not aliases.  A method whose caller does not
+             hold the mutex must not let an alias escape by `return` or by a store into anything that outlives the call
+             and is not itself a guarded member (static, out-parameter).
 R-KEYMUT     the element fields read by the ordered container's comparator are written (mutator
              call, direct write, whole-object assignment) only while the element is outside the
              ordered container: after `ordered.erase(p)` and before `ordered.insert(p)`, or on the
@@ -33,8 +44,9 @@ private helpers are summarised and applied at their call sites whatever their ne
 unique_lock / scoped_lock (explicit unlock()/lock() and defer_lock are followed); a loop exits on its condition or on an
 `if (..) break/return` in its body alike; the evicted element may be named by a local that still equals `*ordered.begin()`.
 Not decided: values over histories (that data returned by a lookup is the most recent), unsigned
-wrap-around of `size_ + size`, that pointers handed out by HasAsset() stay valid after unlock,
-survival of assets referenced by remaining models.
+wrap-around of `size_ + size`, survival of assets referenced by remaining models; aliases captured by lambdas (exit 2),
+handles smuggled through integers or through objects of types that do not look like handles; what a user callback does
+with the payload pointer it is handed under the lock.
 """
 from __future__ import annotations
 
@@ -372,13 +384,257 @@ class LockRule(paths.Rule):
         return st
 
 
+class AliasRule(paths.Rule):
+    """R-LOCK, protected-alias clause.  State: (guards held, {(local id, protected member it points into, stale)}).
+
+    A local becomes a protected alias when it is initialised / assigned / bound from an expression that designates or
+    points into a guarded member (cxx2.AliasEval: data flow and types only).  It is valid inside the lock region in which
+    it was obtained: when the last guard is released (end of the guard's block, explicit unlock()) every alias held at that
+    moment turns stale, and it stays stale if the mutex is taken again (the element may be gone by then).  Every mention of
+    a stale alias (or of an alias while no guard is held) that touches what it designates is reported; copies of the handle
+    carry the taint on, comparisons / null tests / overwriting the local do not touch the storage.  A method whose caller
+    does not hold the mutex must not hand an alias out: not by `return`, not by a store to anything that outlives the call
+    and is not itself guarded."""
+    use_kinds = frozenset({"DeclRefExpr"})
+
+    def __init__(self, R, method, assumed, self_locking, needs):
+        self.R, self.m, self.assumed = R, method, assumed
+        self.self_locking, self.needs = self_locking, needs
+        self._guards = {}
+        self.par = cxx2.parent_map(method.node)
+        self.decls, self.binding, self.guard_vars, self.born = {}, {}, set(), {}
+        for x in cxx2.walk(method.node):
+            k = x.get("k")
+            if k in ("VarDecl", "ParmVarDecl", "DecompositionDecl"):
+                self.decls[x.get("id")] = x
+                if k == "VarDecl" and cxx2.template_name(x.get("t")) in cxx2.GUARD_TEMPLATES:
+                    self.guard_vars.add(x.get("id"))
+            if k == "DecompositionDecl":
+                for b in cir.kids(x):
+                    if b and b.get("k") == "BindingDecl":
+                        e = [c for c in cir.kids(b) if c is not None]
+                        self.binding[b.get("id")] = ("&" in (x.get("t") or ""), (e[0].get("t") if e else None),
+                                                     (e[0].get("dt") if e else None), b.get("n"))
+        self.lambda_refs = set()
+        for x in cxx2.walk(method.node):
+            if x.get("k") == "LambdaExpr":
+                inner = {y.get("id") for y in cxx2.walk(x) if y.get("k") in ("VarDecl", "ParmVarDecl", "BindingDecl")}
+                for y in cxx2.walk(x):
+                    if y.get("k") == "DeclRefExpr" and (y.get("ref") or {}).get("id") not in inner:
+                        self.lambda_refs.add((y.get("ref") or {}).get("id"))
+        rt = method.type[:method.type.find("(")] if "(" in method.type else method.type
+        self.ret_ref, self.ret_carries = "&" in rt, cxx2.carries_alias(rt)
+        self.ev = cxx2.AliasEval(self.member_root, self.own_call_root, self.is_ref)
+        self.tracked = set()
+
+    # -- what AliasEval needs to know about the class
+    def member_root(self, mid):
+        return self.R.cache.fname(mid) if mid in self.R.guarded else None
+
+    def own_call_root(self, call):
+        m = self.R.cache.callee_method(call)
+        if m is None or (m.id not in self.needs and m.id not in self.self_locking):
+            return None
+        rt = m.type[:m.type.find("(")] if "(" in m.type else m.type
+        return f"{self.R.cache.name}::{m.name}()", "&" in rt
+
+    def is_ref(self, vid):
+        if vid in self.binding:
+            return self.binding[vid][0]
+        return "&" in ((self.decls.get(vid) or {}).get("t") or "")
+
+    def vtype(self, vid):
+        if vid in self.binding:
+            return self.binding[vid][1], self.binding[vid][2]
+        d = self.decls.get(vid) or {}
+        return d.get("t"), d.get("dt")
+
+    def vname(self, vid):
+        if vid in self.binding:
+            return self.binding[vid][3]
+        return (self.decls.get(vid) or {}).get("n") or "?"
+
+    def is_local(self, vid):
+        """A variable whose life ends with the call and that nobody else can see."""
+        if vid in self.binding:
+            return True
+        d = self.decls.get(vid)
+        if d is None or d.get("storageClass") == "static" or d.get("tls"):
+            return False
+        return not (d.get("k") == "ParmVarDecl" and "&" in (d.get("t") or ""))
+
+    # -- state
+    def initial(self, fn):
+        return (frozenset({"<caller>"}) if self.assumed else frozenset(), frozenset())
+
+    @staticmethod
+    def env(al):
+        return {v: (root, stale) for v, root, stale in al}
+
+    @staticmethod
+    def released(held, al):
+        """The last guard is gone: what was obtained under it is no longer protected."""
+        return (held, al if held else frozenset((v, root, True) for v, root, _ in al))
+
+    def bind(self, st, vid, val, node, ctx):
+        """Local `vid` receives the value `val` (AliasEval result or None)."""
+        held, al = st
+        al = frozenset(a for a in al if a[0] != vid)
+        t, dt = self.vtype(vid)
+        if val is not None and val[0] != "T" and (self.is_ref(vid) or cxx2.carries_alias(t, dt)):
+            if vid in self.lambda_refs:
+                raise AnalysisError(f"{self.m.qual}: `{self.vname(vid)}` points into guarded member `{val[1]}` and is used "
+                                    f"inside a lambda; lambda bodies are not followed by the lock rule")
+            al = al | {(vid, val[1], bool(val[2]) or not held)}
+            self.tracked.add(vid)
+            self.born[vid] = (node.get("line"), bool(held))
+        return held, al
+
+    def escape(self, val, node, how, ctx):
+        ctx.report(node, f"a {'reference' if val[0] == 'L' else 'pointer / iterator'} into lock-protected "
+                         f"`{val[1]}` {how}; `{self.R.cache.fname(self.R.mutex)}` is no longer held when it is used there, so "
+                         f"a concurrent erase / replace / clear of the element frees or rewrites what it designates",
+                   key=f"alias-of-{val[1]}:{'returned' if 'return' in how else 'stored'}-beyond-lock")
+
+    # -- transfer
+    def assign(self, st, node, ctx):
+        held, al = st
+        k = node.get("k")
+        if k == "VarDecl" and cxx2.guard_decl_mutex(node) == self.R.mutex:
+            return held | {node.get("id")}, al
+        if k == "VarDecl":
+            init = [c for c in cir.kids(node) if c is not None and not c.get("k", "").endswith("Attr")]
+            val = self.ev.value(init[-1], self.env(al)) if init else None
+            if val is not None and val[0] != "T" and not self.is_local(node.get("id")) and \
+                    (self.is_ref(node.get("id")) or cxx2.carries_alias(node.get("t"), node.get("dt"))):
+                self.escape(val, node, f"is stored in `{node.get('n')}`, which outlives the call", ctx)
+                return st
+            return self.bind(st, node.get("id"), val, node, ctx)
+        if k == "DecompositionDecl":
+            init = [c for c in cir.kids(node) if c is not None and c.get("k") != "BindingDecl"]
+            val = self.ev.value(init[-1], self.env(al)) if init else None
+            for b in cir.kids(node):
+                if b and b.get("k") == "BindingDecl":
+                    v = val
+                    if v is not None and self.binding[b.get("id")][0] and v[0] != "L":
+                        v = None            # reference bindings into a temporary
+                    st = self.bind(st, b.get("id"), v, node, ctx)
+            return st
+        if k == "BinaryOperator" and node.get("op") == "=":
+            tgt, rhs = cir.kids(node)
+            return self.store(st, tgt, rhs, node, ctx)
+        return st
+
+    def store(self, st, tgt, rhs, node, ctx):
+        held, al = st
+        env = self.env(al)
+        val = self.ev.value(rhs, env)
+        t = cir.strip(tgt, casts=False)
+        tid = (t.get("ref") or {}).get("id") if t is not None and t.get("k") == "DeclRefExpr" else None
+        if tid is not None and self.is_local(tid) and not self.is_ref(tid):
+            return self.bind(st, tid, val, node, ctx)
+        if val is None or val[0] == "T" or not cxx2.carries_alias((t or {}).get("t"), (t or {}).get("dt")):
+            return st
+        into = self.ev.value(tgt, env)
+        if into is not None and into[0] == "L":
+            return st                   # stored inside the guarded state itself
+        if not self.assumed:
+            self.escape(val, node, f"is stored in `{etext(tgt)}`, which outlives the call", ctx)
+        return st
+
+    def scope_exit(self, st, comp, ctx):
+        g = self._guards.get(id(comp))
+        if g is None:
+            g = self._guards[id(comp)] = frozenset(cxx2.scope_guards(comp))
+        if not g or not (st[0] & g):
+            return st
+        return self.released(st[0] - g, st[1])
+
+    def use(self, st, node, ctx):
+        vid = (node.get("ref") or {}).get("id")
+        held, al = st
+        ent = next((a for a in al if a[0] == vid), None)
+        if ent is None or (held and not ent[2]):
+            return st
+        how = cxx2.alias_context(self.par, node, self.is_ref(vid), cxx2.direct_handle(*self.vtype(vid)))
+        if how in cxx2.ALIAS_BENIGN:
+            return st
+        mx = self.R.cache.fname(self.R.mutex)
+        line, locked_birth = self.born.get(vid, (None, False))
+        if not locked_birth:
+            when = f"although it was obtained while `{mx}` was not held by this method"
+        elif ent[2]:
+            when = f"after the lock region in which it was obtained has ended"
+        else:
+            when = f"while `{mx}` is not held"
+        kind = "reference" if self.is_ref(vid) else "pointer / iterator"
+        ctx.report(node, f"`{self.vname(vid)}` is a {kind} into lock-protected `{ent[1]}` (obtained at line {line}); {how} "
+                         f"{when}: a concurrent erase / replace / clear of the element (any other public method) frees or "
+                         f"rewrites what it designates",
+                   key=f"alias-of-{ent[1]}:use-outside-lock")
+        return st
+
+    def call(self, st, node, name, ctx):
+        held, al = st
+        r = cxx2.receiver(node)
+        if r and name in ("unlock", "lock") and r[0] is not None:
+            b = cxx2.skip(r[0])
+            vid = (b.get("ref") or {}).get("id") if b is not None and b.get("k") == "DeclRefExpr" else None
+            if vid in self.guard_vars:
+                if name == "unlock":
+                    return self.released(held - {vid}, al) if vid in held else st
+                return held | {vid}, al
+        if node.get("k") == "CXXOperatorCallExpr" and cxx2.op_name(node) == "=":
+            a = cxx2.op_args(node)
+            if len(a) == 2:
+                return self.store(st, a[0], a[1], node, ctx)
+        if r and r[0] is not None and node.get("k") == "CXXMemberCallExpr":
+            # a local container / aggregate that receives a handle (v.push_back(p), s.insert(it)) holds it from now on
+            b = cir.strip(r[0], casts=False)
+            vid = (b.get("ref") or {}).get("id") if b is not None and b.get("k") == "DeclRefExpr" else None
+            if vid is not None and vid in self.decls and self.is_local(vid) and not any(a[0] == vid for a in al):
+                env = self.env(al)
+                for x in cxx2.real_args(node)[1:]:
+                    val = self.ev.value(x, env)
+                    if val is not None and val[0] != "T":
+                        return self.bind(st, vid, val, node, ctx)
+        return st
+
+    def ret(self, st, node, ctx):
+        if self.assumed or not (self.ret_ref or self.ret_carries):
+            return
+        c = [x for x in cir.kids(node) if x is not None]
+        val = self.ev.value(c[0], self.env(st[1])) if c else None
+        if val is None or val[0] == "T":
+            return
+        if (self.ret_ref and val[0] == "L") or self.ret_carries:
+            self.escape(val, node, "is returned to the caller (the guard is released when the method returns)", ctx)
+
+
+def check_alias(res, R, m, assumed, self_locking, needs):
+    """Protected-alias clause of R-LOCK for one method."""
+    rule = AliasRule(R, m, assumed, self_locking, needs)
+    ctx = cxx2.explore(rule, TU, m.node)
+    by = collections.OrderedDict()
+    for rp in ctx.reports:
+        by.setdefault(rp["key"], rp)
+    for key, rp in by.items():
+        res.bad("R-LOCK", f"{m.qual}:{key}", rp["file"], rp["line"], rp["msg"])
+    if not by:
+        res.ok("R-LOCK", f"{m.qual}:protected-aliases",
+               {"file": m.file, "line": m.line, "aliases_followed": sorted(rule.vname(v) for v in rule.tracked)})
+    return len(rule.tracked)
+
+
 def check_lock(res, R):
     res.rule("R-LOCK", "public methods hold the mutex at every guarded-member access; non-locking helpers are private "
-             "and called only with the mutex held; no re-lock; guarded members private, no friends", floor=20)
+             "and called only with the mutex held; no re-lock; guarded members private, no friends; pointers / references "
+             "/ iterators derived from guarded members are used only inside the lock region they were obtained in and do "
+             "not escape it", floor=20)
     cache = R.cache
     self_locking, needs = lock_tables(R)
     R.self_locking, R.needs_lock = self_locking, needs
-    n_sites = 0
+    n_sites = n_alias = 0
     for m in R.methods:
         private = m.access != "public"
         assumed = private and m.id in needs
@@ -386,6 +642,7 @@ def check_lock(res, R):
             pass     # explored with no lock held: every access is reported
         rule = LockRule(R, m, assumed, self_locking, needs)
         ctx = cxx2.explore(rule, TU, m.node)
+        n_alias += check_alias(res, R, m, assumed, self_locking, needs)
         by = collections.OrderedDict()
         for rp in ctx.reports:
             by.setdefault(rp["key"], rp)
@@ -431,6 +688,7 @@ def check_lock(res, R):
     else:
         res.ok("R-LOCK", f"{CACHE}:encapsulation", {"guarded": sorted(cache.fname(f) for f in R.guarded)})
     res.count("helper_call_sites", n_sites)
+    res.count("protected_aliases_followed", n_alias)
 
 
 API_TU = "src/user/user_api.cc"
@@ -1665,16 +1923,20 @@ def run(res, tier):
     }
     res.explanation = (
         "All-paths analysis (clang AST, correlated predicates) of every method of the cache class with member roles "
-        "discovered from types/accessors: lock held at every guarded access and helper call (R-LOCK); comparator key "
+        "discovered from types/accessors: lock held at every guarded access and helper call, and at every use of a "
+        "pointer / reference / iterator derived from a guarded member, none of which may outlive its lock region "
+        "(R-LOCK); comparator key "
         "fields written only while the element is out of the ordered set (R-KEYMUT); a per-path symbolic ledger "
         "matching lookup-map membership and element-size changes against byte-counter and ordered-set updates "
         "(R-PAIRWRITE); growth of the counter dominated by the capacity comparison of the very value written, "
         "capacity writes followed by the trimming helper (R-BOUND); comparator truth table and eviction of the least "
         "element (R-EVICT).")
     res.not_decided = ("values over operation histories (most recent data returned), unsigned wrap-around of "
-                       "`size_ + size`, validity of the pointer returned by HasAsset() after the lock is released, "
-                       "survival of assets referenced by remaining models, callers outside user_cache.cc (they can "
-                       "only use the public methods: members are private, no friends).")
+                       "`size_ + size`, survival of assets referenced by remaining models, callers outside "
+                       "user_cache.cc (they can only use the public methods: members are private, no friends); what a "
+                       "user callback does with the payload pointer it is handed under the lock; handles into guarded "
+                       "members that are captured by lambdas (analysis error) or carried by types that do not look "
+                       "like pointers / iterators / views.")
     res.assumptions = ["std containers behave as specified (insert on an existing key reports false, erase(begin()) "
                        "removes the least element)", "element methods other than the discovered mutators do not write "
                        "key or size fields (checked from their bodies)"]
@@ -1706,8 +1968,86 @@ _POP_LOCK = ("PopulateData(const std::string& id, const mjResource* resource, mj
              "  std::lock_guard<std::mutex> lock(mutex_);")
 _POP_ULOCK = ("PopulateData(const std::string& id, const mjResource* resource, mjCDataFunc fn) {\n"
               "  std::unique_lock<std::mutex> lock(mutex_);")
+# protected-alias clause of R-LOCK: PopulateData rewritten so that the guard lives in an inner block (`%s` = declarations placed
+# before the block, `%s` = what replaces the final `return asset->PopulateData(fn);`)
+_POP_HEAD = "PopulateData(const std::string& id, const mjResource* resource, mjCDataFunc fn) {\n"
+_POP_TAIL = "  entries_.insert(asset);\n\n  return asset->PopulateData(fn);"
+_POP_ELEM = "  mjCAsset* asset = &(it->second);\n\n  // update priority queue"
+_POP_Q = "R-LOCK construct=mjCCache::PopulateData(const std::string &, const mjResource *, mjCDataFunc):alias-of-lookup_:"
+
+
+def _pop_block(before, in_block_tail, after, elem=None):
+    """PopulateData with `before` declared ahead of a block that holds the lock_guard; the block ends with
+    `in_block_tail` and is followed by `after`."""
+    ed = [(_CC, _POP_LOCK, _POP_HEAD + before + "  {\n  std::lock_guard<std::mutex> lock(mutex_);"),
+          (_CC, _POP_TAIL, "  entries_.insert(asset);\n" + in_block_tail + "  }\n\n" + after)]
+    if elem is not None:
+        ed.append((_CC, _POP_ELEM, elem + "\n\n  // update priority queue"))
+    return ed
+
+
+_FIND_DEF = ("mjCAsset* mjCCache::Find(const std::string& id) {\n%s  auto it = lookup_.find(id);\n"
+             "  return it == lookup_.end() ? nullptr : &(it->second);\n}\n\n")
+_DEL_ASSET = "  auto                        it = lookup_.find(id);\n  if (it != lookup_.end()) { Delete(&(it->second)); }"
+_GUARD_LINE = "  std::lock_guard<std::mutex> lock(mutex_);\n"
+
 SELFTEST = {
     # name: (edits, substring expected among the new reports, or None for a control that must stay silent)
+    # ---- protected aliases: must fire
+    "alias-callback-after-guard-block": (_pop_block("  mjCAsset* asset = nullptr;\n", "", "  return asset->PopulateData(fn);",
+                                                    elem="  asset = &(it->second);"), _POP_Q + "use-outside-lock"),
+    "alias-iterator-call-after-unlock": ([(_CC, _POP_LOCK, _POP_ULOCK),
+                                          (_CC, _POP_TAIL, "  entries_.insert(asset);\n  lock.unlock();\n\n"
+                                           "  return it->second.PopulateData(fn);")], _POP_Q + "use-outside-lock"),
+    "alias-element-reference-returned": ([(_CC, _HELPER_AT, "const mjCAsset& mjCCache::Peek(const std::string& id) {\n" + _GUARD_LINE +
+                                           "  return lookup_.at(id);\n}\n\n" + _HELPER_AT),
+                                          (_H, "  void DeleteAsset(const std::string& id);",
+                                           "  void DeleteAsset(const std::string& id);\n  const mjCAsset& Peek(const std::string& id);")],
+                                         "R-LOCK construct=mjCCache::Peek(const std::string &):alias-of-lookup_:returned-beyond-lock"),
+    "alias-element-pointer-stored-in-static": ([(_CC, _POP_ELEM, "  mjCAsset* asset = &(it->second);\n"
+                                                 "  static const mjCAsset* last_hit = nullptr;\n  last_hit = asset;\n\n"
+                                                 "  // update priority queue")], _POP_Q + "stored-beyond-lock"),
+    "alias-element-pointer-stored-in-out-param": ([(_CC, _HELPER_AT, "bool mjCCache::Locate(const std::string& id, const mjCAsset** out) {\n" +
+                                                    _GUARD_LINE + "  auto it = lookup_.find(id);\n  if (it == lookup_.end()) { return false; }\n"
+                                                    "  *out = &(it->second);\n  return true;\n}\n\n" + _HELPER_AT),
+                                                   (_H, "  void DeleteAsset(const std::string& id);", "  void DeleteAsset(const std::string& id);\n"
+                                                    "  bool Locate(const std::string& id, const mjCAsset** out);")],
+                                                  "R-LOCK construct=mjCCache::Locate(const std::string &, const mjCAsset **):alias-of-lookup_:"
+                                                  "stored-beyond-lock"),
+    "alias-kept-across-unlock-relock": ([(_CC, _POP_LOCK, _POP_ULOCK),
+                                         (_CC, _POP_ELEM, "  mjCAsset* asset = &(it->second);\n  lock.unlock();\n  lock.lock();\n\n"
+                                          "  // update priority queue")], _POP_Q + "use-outside-lock"),
+    "alias-raw-payload-pointer-after-guard-block": (_pop_block("  const void* raw = nullptr;\n", "  raw = asset->Data();\n",
+                                                               "  return fn(raw);"), _POP_Q + "use-outside-lock"),
+    "alias-element-reference-after-guard-block": (_pop_block("  const std::string* stamp = nullptr;\n  bool ok = false;\n",
+                                                             "  const std::string& ts = asset->Timestamp();\n  stamp = &ts;\n"
+                                                             "  ok = asset->PopulateData(fn);\n", "  return ok && !stamp->empty();"),
+                                                  _POP_Q + "use-outside-lock"),
+    "alias-find-helper-locks-itself": ([(_CC, _HELPER_AT, _FIND_DEF % _GUARD_LINE + _HELPER_AT),
+                                        (_H, "  void Trim();", "  void Trim();\n  mjCAsset* Find(const std::string& id);"),
+                                        (_CC, "void mjCCache::DeleteAsset(const std::string& id) {\n" + _GUARD_LINE + _DEL_ASSET,
+                                         "void mjCCache::DeleteAsset(const std::string& id) {\n  mjCAsset* found = Find(id);\n" +
+                                         _GUARD_LINE + "  if (found) { Delete(found); }")],
+                                       "R-LOCK construct=mjCCache::Find(const std::string &):alias-of-lookup_:returned-beyond-lock"),
+    # ---- protected aliases: controls (values copied out under the lock are not aliases; aliases used under the lock)
+    "control-payload-shared-ptr-copied-under-lock": (_pop_block("  std::shared_ptr<const void> payload;\n", "  payload = asset->data_;\n",
+                                                                "  return fn(payload.get());"), None),
+    "control-size-and-string-copied-under-lock": (_pop_block("  std::size_t nbytes = 0;\n  std::string stamp;\n  bool ok = false;\n",
+                                                             "  nbytes = asset->BytesCount();\n  stamp = it->second.Timestamp();\n"
+                                                             "  ok = asset->PopulateData(fn);\n",
+                                                             "  return ok && nbytes > 0 && !stamp.empty();"), None),
+    "control-alias-used-only-inside-guard-block": (_pop_block("  bool ok = false;\n", "  ok = asset->PopulateData(fn);\n", "  return ok;"),
+                                                   None),
+    "control-alias-null-test-after-guard-block": (_pop_block("  mjCAsset* asset = nullptr;\n  bool ok = false;\n",
+                                                             "  ok = asset->PopulateData(fn);\n", "  return ok && asset != nullptr;",
+                                                             elem="  asset = &(it->second);"), None),
+    "control-unlock-after-last-alias-use": ([(_CC, _POP_LOCK, _POP_ULOCK),
+                                             (_CC, _POP_TAIL, "  entries_.insert(asset);\n  const bool ok = asset->PopulateData(fn);\n"
+                                              "  lock.unlock();\n\n  return ok;")], None),
+    "control-private-find-helper-under-callers-lock": ([(_CC, _HELPER_AT, _FIND_DEF % "" + _HELPER_AT),
+                                                        (_H, "  void Trim();", "  void Trim();\n  mjCAsset* Find(const std::string& id);"),
+                                                        (_CC, _DEL_ASSET, "  mjCAsset* found = Find(id);\n  if (found) { Delete(found); }")],
+                                                       None),
     "remove-lock_guard": ([(_CC, "std::size_t mjCCache::Size() const {\n  std::lock_guard<std::mutex> lock(mutex_);\n",
                             "std::size_t mjCCache::Size() const {\n")], "R-LOCK construct=mjCCache::Size() const:size_"),
     "lock-scope-too-small": ([(_CC, "  std::lock_guard<std::mutex> lock(mutex_);\n  capacity_ = size;\n  Trim();",
